@@ -417,6 +417,9 @@ func newStore(kind string) (target, func()) {
 		}
 		storeDir = dir
 		s, err := file.New(dir)
+		if kind[4] == 'L' {
+			s, err = file.NewWithFallbackLimit(dir, fallbackLimit)
+		}
 		if err != nil {
 			panic(err)
 		}
@@ -431,6 +434,8 @@ func errTok(err error) string {
 	switch {
 	case err == nil:
 		return "ok"
+	case errors.Is(err, errdef.ErrSizeExceedsLimit):
+		return "err:sizelimit"
 	case errors.Is(err, errdef.ErrAlreadyExists):
 		return "err:exists"
 	case errors.Is(err, errdef.ErrNotFound):
@@ -1771,6 +1776,82 @@ func titledRestoreRounds(h histSpec) {
 	}
 }
 
+// fallbackLimit: the push limit of the fallback storage of store kind "fileL0"
+// (file.NewWithFallbackLimit); layers of the universes are smaller, most manifests larger.
+const fallbackLimit = 400
+
+// limitHistory: a sequential history on a file store with a fallback push limit.  Every result is
+// compared with the model (Model/StoresFileLimit.v); independently of the model: an unnamed push
+// whose descriptor size exceeds the limit is refused with ErrSizeExceedsLimit and changes nothing
+// that can be read back, and nothing else ever reports that error.
+func limitHistory(h histSpec) {
+	hh := h
+	inFlight.Store(&hh)
+	progress()
+	r := common.NewRand(h.HSeed)
+	u := genUniverse(r, h.Kind, false)
+	var ops []Op
+	hn := &hint{}
+	for i := 0; i < h.NOps; i++ {
+		ops = append(ops, genOp(r, u, h.Kind, hn))
+	}
+	t, cleanup := newStore(h.Kind)
+	defer cleanup()
+	id := run.NewID()
+	var toks, outs, shown []string
+	failed := false
+	report := func(sig, msg string, step int) {
+		if failed {
+			return
+		}
+		failed = true
+		run.OracleFail(id, sig, fmt.Sprintf("store=%s step=%d: %s", h.Kind, step, msg),
+			map[string]any{"store": h.Kind, "mode": "lim", "hseed": h.HSeed, "nops": h.NOps, "step": step, "history": shown})
+	}
+	probe := u.probeOps(h.Kind)
+	snapshot := func() string {
+		var l []string
+		for _, p := range probe {
+			l = append(l, u.apply(t, p).tok)
+		}
+		return strings.Join(l, "|")
+	}
+	for i, o := range ops {
+		over := false
+		before := ""
+		if o.K == "P" {
+			d := u.descOf(o)
+			over = d.Annotations[ocispec.AnnotationTitle] == "" && d.Size > fallbackLimit
+			if over && i%3 == 0 {
+				before = snapshot()
+			}
+		}
+		res := u.apply(t, o)
+		toks = append(toks, u.opTok(o))
+		outs = append(outs, res.tok)
+		shown = append(shown, o.String()+" => "+res.tok)
+		run.Count(h.Kind + "/" + o.K + "/" + strings.SplitN(res.tok, ":", 2)[0])
+		switch {
+		case over && res.tok != "err:sizelimit":
+			report("limit-not-enforced", fmt.Sprintf("unnamed push %s of a descriptor larger than the fallback limit %d => %s", o, fallbackLimit, res.tok), i)
+		case over:
+			run.Count(h.Kind + "/pattern/over-limit-refused")
+			if before != "" && snapshot() != before {
+				report("failed-op-changed-state", fmt.Sprintf("after refused oversized push %s the state read back differs", o), i)
+			}
+		case res.tok == "err:sizelimit":
+			report("limit-spurious", fmt.Sprintf("%s => size exceeds limit, but it is not an unnamed push above the limit", o), i)
+		}
+	}
+	for _, p := range probe {
+		res := u.apply(t, p)
+		toks = append(toks, u.opTok(p))
+		outs = append(outs, res.tok)
+	}
+	run.Case(id, "seq "+h.Kind+" "+strings.Join(toks, " ")+fmt.Sprintf(" #%s:lim:%d:%d", h.Kind, h.HSeed, h.NOps), strings.Join(outs, "|"))
+	run.Nontrivial(h.Kind + " " + strings.Join(toks[:len(ops)], " "))
+}
+
 func main() {
 	run = common.Start("C06")
 	defer run.Finish()
@@ -1789,6 +1870,8 @@ func main() {
 			}
 			if h.Mode == "titledrace" {
 				titledRestoreRounds(h)
+			} else if h.Mode == "lim" {
+				limitHistory(h)
 			} else if h.Mode == "race" {
 				if h.Thr == 0 {
 					h.Thr = 2
@@ -1830,6 +1913,9 @@ func main() {
 			concHistory(histSpec{Kind: kind, Mode: "conc", HSeed: run.Rand.U64() >> 12, NOps: 6 + run.Rand.Intn(6), Thr: thr})
 		}
 	}
+	for i := 0; i < nseq/5; i++ {
+		limitHistory(histSpec{Kind: "fileL0", Mode: "lim", HSeed: run.Rand.U64() >> 12, NOps: nops})
+	}
 	for i := 0; i < run.Scale(4, 20); i++ {
 		titledRestoreRounds(histSpec{Kind: "file00", Mode: "titledrace", HSeed: run.Rand.U64() >> 12, NOps: 150, Thr: 2})
 	}
@@ -1841,7 +1927,7 @@ func main() {
 		"oci/AutoSaveIndex=false": 20, "oci/AutoSaveIndex=true": 20,
 		"file/pattern/restore-fails-traversal": 3, "file/alias-tainted-histories": 5,
 		"race-mem/successes=1": 20, "race-file00/successes=1": 20, "conc-mem/P": 50, "conc-oci/P": 50, "conc-file00/P": 50,
-		"file00/titled-restore-round": 4, "oci/disk-compared": 100, "file00/disk-compared": 100, "file01/disk-compared": 100,
+		"file00/titled-restore-round": 4, "fileL0/pattern/over-limit-refused": 30, "fileL0/P/ok": 30, "oci/disk-compared": 100, "file00/disk-compared": 100, "file01/disk-compared": 100,
 		"conc-mem/F": 50, "conc-oci/F": 50, "conc-oci/E": 5, "conc-oci/R": 50, "conc-file00/F": 30, "conc-file00/R": 50,
 		"mem/R/D": 50, "oci/R/D": 50, "file00/R/D": 20,
 	}
